@@ -38,10 +38,11 @@ type Frame struct {
 }
 
 type loopInfo struct {
-	header  *ssa.BasicBlock
-	ordinal int
-	body    map[*ssa.BasicBlock]bool
-	backs   []*ssa.BasicBlock
+	headLocks map[string]int // lockset when the loop head was entered
+	header    *ssa.BasicBlock
+	ordinal   int
+	body      map[*ssa.BasicBlock]bool
+	backs     []*ssa.BasicBlock
 }
 
 func (vc *VC) pos(p token.Pos) token.Position {
@@ -333,6 +334,10 @@ func (vc *VC) loopHead(fr *Frame, li *loopInfo, cur *State, ins []edgeState) *St
 	}
 	// 2. havoc what the body may modify
 	st := cur.clone()
+	li.headLocks = map[string]int{}
+	for l, m := range cur.locks {
+		li.headLocks[l] = m
+	}
 	mods := vc.loopMods(fr, li)
 	var modAllocs []*ssa.Alloc
 	for a := range mods.allocs {
@@ -1176,6 +1181,33 @@ func (vc *VC) flow(fr *Frame, from, to *ssa.BasicBlock, st *State, in map[*ssa.B
 				t = "false"
 			}
 			vc.oblige(st, "invariant", fmt.Sprintf("%s#inv.loop%d.preserved.%d", funcKey(fr.fn), li.ordinal, i+1), "loop invariant preserved: "+inv.src, pos, t)
+		}
+		// the lockset is part of every loop's invariant: an iteration must end with the mutexes it
+		// started with (otherwise what is assumed held at the loop head is not held in the next iteration)
+		if vc.topCon != nil && (vc.topCon.Flags["lockset"] || vc.topCon.Flags["lockbalance"]) && li.headLocks != nil &&
+			(fr.top || (vc.topFn != nil && isNestedIn(fr.fn, vc.topFn))) {
+			var diff []string
+			seen := map[string]bool{}
+			for l, m := range li.headLocks {
+				seen[l] = true
+				if strings.HasPrefix(l, "#n:") {
+					continue
+				}
+				if st.locks[l] != m {
+					diff = append(diff, fmt.Sprintf("%s (mode %d at the loop head, %d at the end of the iteration)", l, m, st.locks[l]))
+				}
+			}
+			for l, m := range st.locks {
+				if !seen[l] && !strings.HasPrefix(l, "#n:") && m != 0 {
+					diff = append(diff, fmt.Sprintf("%s (not held at the loop head, mode %d at the end of the iteration)", l, m))
+				}
+			}
+			sort.Strings(diff)
+			goal, desc := "true", "an iteration ends with the mutexes it started with"
+			if len(diff) > 0 {
+				goal, desc = "false", "loop iteration changes the lockset: "+strings.Join(diff, "; ")
+			}
+			vc.oblige(st, "lockset", fmt.Sprintf("%s#lockset.loop%d", funcKey(vc.topFn), li.ordinal), desc, pos, goal)
 		}
 		return
 	}
